@@ -63,7 +63,7 @@ Print Assumptions C01_unclearing_free_refuted.
     whose candidates lie inside their segment; the statement without that
     hypothesis ([TotalProofs.core_total_full]) is refuted
     ([C01_core_total_needs_candidate_shape]).  The earlier partial theorems are kept: *)
-From RimeV Require Eng.Api Eng.Ctx Eng.Engine Eng.Oracle Eng.Spec Eng.CommitProofs Eng.TotalFull Eng.TotalProofs.
+From RimeV Require Eng.Api Eng.Ctx Eng.Engine Eng.Oracle Eng.Spec Eng.CommitProofs Eng.TotalFull Eng.TotalProofs Eng.PunctProofs.
 
 (** for EVERY history of API operations with arbitrary arguments (keys with any
     code/mask, indices up to SIZE_MAX, carets beyond the end, options, …), any
@@ -96,9 +96,17 @@ Print Assumptions C01_core_total_edit_keys.
     is std::string::substr with pos > size: no null dereference, no invalid page
     range, and CalculateSegmentation finishes within its |input| + 1 rounds in
     every reachable state (PARTIAL: three of the four kinds; see
-    TotalProofs.core_total_full for the full statement and what is missing) *)
+    TotalProofs.core_total_full for the full statement and what is missing).
+    Round 3: the statement now covers EVERY processor / segmentor chain of the
+    model (punctuator, punct_segmentor included); the model gained CommitHistory,
+    whose Push(composition, input) can read a popped record unless the source
+    resets [last] in its raw branch – the source fact [cf_hist_guard]
+    (Gen/EngFacts.v: commit_history_guard, discharged for the synthetic
+    configurations from the current source; [C01_commit_history_dangling] is the
+    witness for the other shape). *)
 Theorem C01_core_total_except_substr :
   forall cfg translate, RimeV.Eng.TotalProofs.total_hyps cfg translate ->
+  RimeV.Eng.Engine.cf_hist_guard cfg = true ->
   (forall i s c, List.In c (translate i s) -> RimeV.Eng.Cand.si_start s <= RimeV.Eng.Cand.c_end c) ->
   forall ops, List.Forall RimeV.Eng.WfProofs.obs_only_substr (snd (RimeV.Eng.Api.run cfg translate ops)).
 Proof. exact RimeV.Eng.TotalProofs.core_total_except_substr. Qed.
@@ -118,8 +126,13 @@ Print Assumptions C01_core_total_except_substr.
     the abc segmentor refuses, the last segment is open or empty; Compose
     re-establishes it from the weaker form Reopen leaves behind, and swallows
     the one raw segment with a stale length that OnSelect can cut short.) *)
+(** Round 3: [plain_chain cfg] = segmentors [abc_segmentor, fallback_segmentor], no punctuator
+    among the processors (these were ALL configurations of the model when the theorem was
+    first proved), and the source fact about CommitHistory::Push.  For chains with
+    punct_segmentor the statement is false as it stands ([C01_punct_chain_stale_menu]). *)
 Theorem C01_core_total :
   forall cfg translate, RimeV.Eng.TotalProofs.total_hyps cfg translate ->
+  RimeV.Eng.TotalFull.plain_chain cfg ->
   RimeV.Eng.TotalFull.cands_fit translate ->
   forall ops, List.forallb RimeV.Eng.CommitProofs.not_crash (snd (RimeV.Eng.Api.run cfg translate ops)) = true.
 Proof. exact RimeV.Eng.TotalProofs.core_total. Qed.
@@ -144,3 +157,53 @@ Print Assumptions C01_oracle_translator_cands_fit.
 Theorem C01_core_total_needs_candidate_shape : ~ RimeV.Eng.TotalProofs.core_total_full.
 Proof. exact RimeV.Eng.TotalProofs.core_total_full_refuted. Qed.
 Print Assumptions C01_core_total_needs_candidate_shape.
+
+(** ---- round 3: CommitHistory and the punctuator chains ---- *)
+(** the source shape of CommitHistory::Push(composition, input) WITHOUT the reset of [last]
+    in its raw branch (librime before c6a26de): on synth_fluid, `a x, select 3, space,
+    (x space) x 21, a, commit_composition` dereferences a popped record
+    (replays/eng-commit-history-dangling-last.txt: heap-use-after-free under ASan) *)
+Theorem C01_commit_history_dangling :
+  let cfg := RimeV.Eng.Oracle.synth_cfg_gen true true true false in
+  RimeV.Eng.TotalProofs.total_hyps cfg RimeV.Eng.Oracle.oracle_translate /\
+  RimeV.Eng.TotalFull.cands_fit RimeV.Eng.Oracle.oracle_translate /\
+  RimeV.Eng.Engine.cf_segmentors cfg = (RimeV.Eng.Engine.SgAbc :: RimeV.Eng.Engine.SgFallback :: nil)%list /\
+  ~ List.In RimeV.Eng.Engine.PPunctuator (RimeV.Eng.Engine.cf_processors cfg) /\
+  List.existsb (fun o => match o with RimeV.Eng.Api.ObsCrash RimeV.Eng.Ctx.ErrDangling => true | _ => false end)
+          (snd (RimeV.Eng.Api.run cfg RimeV.Eng.Oracle.oracle_translate RimeV.Eng.PunctProofs.dangling_ops)) = true.
+Proof. exact RimeV.Eng.PunctProofs.commit_history_dangling. Qed.
+Print Assumptions C01_commit_history_dangling.
+
+(** the current source fact is the guarded shape: the synthetic configurations carry it *)
+Theorem C01_commit_history_guard_in_source : RimeV.Eng.Oracle.hist_guard_in_source = true.
+Proof. reflexivity. Qed.
+Print Assumptions C01_commit_history_guard_in_source.
+
+(** chains with punct_segmentor: the hypotheses of [C01_core_total] (candidates inside their
+    segment, in the form TranslateSegments needs) do NOT suffice – after a full_shape toggle
+    the punct segmentor takes the byte that the fallback segmentor would have re-absorbed
+    into a closed raw segment cut short by a partial candidate; Segment::Reopen revives the
+    stale menu and GetPreedit throws std::out_of_range
+    (replays/eng-stale-raw-menu-after-shape-toggle.txt, confirmed on the real code) *)
+Theorem C01_punct_chain_stale_menu :
+  let cfg := RimeV.Eng.Oracle.synth_punct_cfg_gen true true true true in
+  RimeV.Eng.TotalProofs.total_hyps cfg (RimeV.Eng.Oracle.synth_translate cfg) /\
+  RimeV.Eng.Engine.cf_hist_guard cfg = true /\
+  RimeV.Eng.PunctProofs.cands_fit_seg (RimeV.Eng.Oracle.synth_translate cfg) /\
+  RimeV.Eng.Engine.cf_segmentors cfg
+  = (RimeV.Eng.Engine.SgAbc :: RimeV.Eng.Engine.SgPunct :: RimeV.Eng.Engine.SgFallback :: nil)%list /\
+  List.existsb (fun o => match o with RimeV.Eng.Api.ObsCrash RimeV.Eng.Ctx.ErrSubstr => true | _ => false end)
+          (snd (RimeV.Eng.Api.run cfg (RimeV.Eng.Oracle.synth_translate cfg) RimeV.Eng.PunctProofs.stale_menu_ops)) = true.
+Proof. exact RimeV.Eng.PunctProofs.punct_chain_stale_menu. Qed.
+Print Assumptions C01_punct_chain_stale_menu.
+
+(** what IS proved for the punctuator schemas: no null dereference, no invalid page range
+    (PARTIAL; the full statement with its extra hypothesis is
+    [RimeV.Eng.PunctProofs.core_total_punct_full], not proved) *)
+Theorem C01_core_total_partial_synth_punct :
+  forall fluid dlog ops,
+    List.Forall RimeV.Eng.TotalProofs.no_null_no_bad_range_obs
+      (snd (RimeV.Eng.Api.run (RimeV.Eng.Oracle.synth_punct_cfg fluid dlog)
+                              (RimeV.Eng.Oracle.synth_translate (RimeV.Eng.Oracle.synth_punct_cfg fluid dlog)) ops)).
+Proof. exact RimeV.Eng.PunctProofs.core_total_partial_synth_punct. Qed.
+Print Assumptions C01_core_total_partial_synth_punct.
